@@ -109,6 +109,9 @@ Fixpoint sx_print (s : sx) : list N :=
              end) l true
   end.
 
+(* linear-time reversal (List.rev is quadratic); used by the wire-format reader *)
+Definition frev {T} (l : list T) : list T := rev_append l [].
+
 (* parsing: a token stack machine with fuel = length of input + 1 *)
 
 Definition is_digit (b : N) : bool := (48 <=? b) && (b <=? 57).
@@ -127,7 +130,7 @@ Fixpoint read_num (bs : list N) (acc : N) : N * list N :=
 Fixpoint read_str (bs : list N) (acc : list N) : option (list N * list N) :=
   match bs with
   | [] => None
-  | 34 :: r => Some (rev acc, r)
+  | 34 :: r => Some (frev acc, r)
   | 92 :: 120 :: h :: l :: r => read_str r ((hex_val h * 16 + hex_val l) :: acc)
   | 92 :: c :: r => read_str r (c :: acc)
   | c :: r => read_str r (c :: acc)
@@ -138,8 +141,8 @@ Definition is_sym (b : N) : bool :=
   ((97 <=? b) && (b <=? 122)) || ((65 <=? b) && (b <=? 90)) || is_digit b || (b =? 45) || (b =? 95).
 Fixpoint read_sym (bs : list N) (acc : list N) : list N * list N :=
   match bs with
-  | b :: r => if is_sym b then read_sym r (b :: acc) else (rev acc, bs)
-  | [] => (rev acc, [])
+  | b :: r => if is_sym b then read_sym r (b :: acc) else (frev acc, bs)
+  | [] => (frev acc, [])
   end.
 
 (* stack of partially built lists (innermost first, each reversed) *)
@@ -160,8 +163,8 @@ Fixpoint sx_parse_go (fuel : nat) (bs : list N) (stack : list (list sx))
     | 41 :: r =>
       match stack with
       | [] => None
-      | cur :: [] => Some (XL (rev cur))
-      | cur :: (up :: st) => sx_parse_go f r ((XL (rev cur) :: up) :: st)
+      | cur :: [] => Some (XL (frev cur))
+      | cur :: (up :: st) => sx_parse_go f r ((XL (frev cur) :: up) :: st)
       end
     | 34 :: r =>
       match read_str r [] with
